@@ -418,6 +418,9 @@ instances! {
     c10_tracked_vs_zst_n3:     refuse<TrT, ZU, 3> unwind 5;
     c10_bytes4_vs_u32_n3:      refuse<B4T, P32U, 3> unwind 5;
     c10_heap_vs_over16_n3:     refuse<HeapT, O16U, 3> unwind 5;
+    c10_rev_align_4_to_1_n3:   refuse<P32T, B4U, 3> unwind 5;
+    c10_rev_align_16_to_8_n3:  refuse<O16T, HeapU, 3> unwind 5;
+    c10_rev_size_6_to_4_n3:    refuse<Tr6T, TrU, 3> unwind 5;
     c10_size_ne_align_eq_n5:   refuse<TrT, Tr6U, 5> unwind 7;
     c10_size_eq_align_ne_n5:   refuse<TrT, Tr4A4U, 5> unwind 7;
     c10_zst_vs_tracked_n5:     refuse<ZT, TrU, 5> unwind 7;
